@@ -83,6 +83,9 @@ pub static CRASH_AT: AtomicI64 = AtomicI64::new(-1);
 pub static CALLNO: AtomicI64 = AtomicI64::new(0);
 /// pause immediately before the k-th counted system call: write "p\n" to stdout, then wait for one byte on stdin; -1 = off
 pub static PAUSE_AT: AtomicI64 = AtomicI64::new(-1);
+/// bit k set: the k-th recv() call (counted from when the mask was armed) is answered EINTR
+pub static EINTR_RECV_MASK: AtomicU64 = AtomicU64::new(0);
+pub static EINTR_RECV_CALLNO: AtomicU64 = AtomicU64::new(0);
 pub static COUNT_CALLS: AtomicBool = AtomicBool::new(false);
 /// make connect() fail with ECONNREFUSED / bind() fail: counters of forced failures
 pub static FAIL_MMAP: AtomicBool = AtomicBool::new(false);
@@ -514,6 +517,16 @@ pub unsafe extern "C" fn recvmsg(fd: i32, m: *mut libc::msghdr, fl: i32) -> isiz
 #[no_mangle]
 pub unsafe extern "C" fn recv(fd: i32, b: *mut libc::c_void, n: usize, fl: i32) -> isize {
     gate(|| format!("recv {}", fd));
+    // a signal handled by this thread while it waits in recv(): the kernel answers EINTR and has transferred nothing
+    let mask = EINTR_RECV_MASK.load(Ordering::SeqCst);
+    if mask != 0 {
+        let k = EINTR_RECV_CALLNO.fetch_add(1, Ordering::SeqCst);
+        if k < 64 && (mask >> k) & 1 == 1 {
+            rec(|| Ev::Recv { fd, want: n, r: -1, errno: libc::EINTR });
+            set_errno(libc::EINTR);
+            return -1;
+        }
+    }
     let r = real!("recv", unsafe extern "C" fn(i32, *mut libc::c_void, usize, i32) -> isize)(fd, b, n, fl);
     let e = errno();
     rec(|| Ev::Recv { fd, want: n, r, errno: e });
